@@ -329,8 +329,8 @@ def run_family(ctx, res, cases, features=None, chunk=400, style_fn=None):
     res.extra['corpus_cases'] = len(corpus)
 
 
-def replay_family(ctx, res, payload):
+def replay_family(ctx, res, payload, style_fn=None):
     case = payload.get('case')
-    rec = Batch(ctx).run([case])[0]
+    rec = Batch(ctx).run([case], style_fn=style_fn)[0]
     print('replay: impl=%s\n model=%s\n spec=%s' % (str(rec['impl'])[:1500], str(rec['model'])[:1500], str(rec['spec'])[:1500]))
     judge(res, rec, set(ctx.known))
